@@ -11,6 +11,8 @@
 //!   QC <kind> <a> <b> <unit|-> <target>   ScaledQuantity::convert; target = u<hex> | smetric | simperial
 //!   QF <kind> <a> <b> <unit|->            ScaledQuantity::fit
 //!     kind n: a = number; r: a, b numbers; t: a = hex text; f: a = w,n,d,err (fraction)
+//!   RC <hex recipe text> <metric|imperial>   ScaledRecipe::convert vs converting every quantity on its own
+//!                                          (implementation only: the model has no recipe level)
 //! Output: `<result> ; V <violated predicates|->` where the V field is the C09 monitor evaluated
 //! on what the implementation returned.
 use cooklang::convert::{
@@ -372,6 +374,94 @@ fn main() {
                         }
                     }
                 }
+            }
+            "RC" => {
+                // ScaledRecipe::convert against converting each quantity on its own
+                let text = unhex(f[1]);
+                let sys = parse_sys(f[2]);
+                let parser = cooklang::CooklangParser::new(cooklang::Extensions::all(), c.clone());
+                let Some(rec) = parser.parse(&text).into_output() else {
+                    return "rc invalid".to_string();
+                };
+                let mut scaled = rec.default_scale();
+                let mut expect: Vec<(ScaledQuantity, bool)> = Vec::new(); // (result of converting alone, failed)
+                let mut each = |q: &ScaledQuantity| {
+                    let mut x = q.clone();
+                    let failed = x.convert(sys, &c).is_err();
+                    (x, failed)
+                };
+                for i in &scaled.ingredients {
+                    if let Some(q) = &i.quantity {
+                        expect.push(each(q));
+                    }
+                }
+                for t in &scaled.timers {
+                    if let Some(q) = &t.quantity {
+                        expect.push(each(q));
+                    }
+                }
+                for q in &scaled.inline_quantities {
+                    expect.push(each(q));
+                }
+                let names_before: Vec<String> = scaled.ingredients.iter().map(|i| i.name.clone()).collect();
+                let cw_before = format!("{:?}", scaled.cookware);
+                let originals: Vec<ScaledQuantity> = scaled
+                    .ingredients.iter().filter_map(|i| i.quantity.clone())
+                    .chain(scaled.timers.iter().filter_map(|t| t.quantity.clone()))
+                    .chain(scaled.inline_quantities.iter().cloned())
+                    .collect();
+                let errors = scaled.convert(sys, &c);
+                let got: Vec<ScaledQuantity> = scaled
+                    .ingredients.iter().filter_map(|i| i.quantity.clone())
+                    .chain(scaled.timers.iter().filter_map(|t| t.quantity.clone()))
+                    .chain(scaled.inline_quantities.iter().cloned())
+                    .collect();
+                if got.len() != expect.len() {
+                    viol.push("recipe_frame");
+                }
+                let nfail = expect.iter().filter(|e| e.1).count();
+                if errors.len() != nfail {
+                    viol.push("recipe_errors");
+                }
+                for ((g, (e, failed)), o) in got.iter().zip(expect.iter()).zip(originals.iter()) {
+                    if format!("{:?}", g) != format!("{:?}", e) {
+                        viol.push("recipe_vs_quantity");
+                    }
+                    if *failed {
+                        if format!("{:?}", g) != format!("{:?}", o) {
+                            viol.push("failure_frame");
+                        }
+                        continue;
+                    }
+                    // a converted quantity sits in a designated unit of the target system and keeps its amount
+                    if let (Some(gu), Some(ou)) = (g.unit().and_then(|k| c.find_unit(k)), o.unit().and_then(|k| c.find_unit(k))) {
+                        if gu.system.is_some() && !in_best(&c, &gu, sys) {
+                            viol.push("best_member");
+                        }
+                        let val = |q: &ScaledQuantity| -> Option<(f64, f64)> {
+                            match q.value() {
+                                Value::Number(n) => Some((n.value(), n.value())),
+                                Value::Range { start, end } => Some((start.value(), end.value())),
+                                Value::Text(_) => None,
+                            }
+                        };
+                        if let (Some((a0, a1)), Some((b0, b1))) = (val(g), val(o)) {
+                            if !close(to_base(&gu, a0), to_base(&ou, b0), abs_tol(&gu))
+                                || !close(to_base(&gu, a1), to_base(&ou, b1), abs_tol(&gu))
+                            {
+                                viol.push("amount");
+                            }
+                        }
+                    }
+                }
+                if names_before != scaled.ingredients.iter().map(|i| i.name.clone()).collect::<Vec<_>>()
+                    || cw_before != format!("{:?}", scaled.cookware)
+                {
+                    viol.push("recipe_frame");
+                }
+                viol.sort();
+                viol.dedup();
+                format!("rc {} {} {}", got.len(), got.len() - nfail, errors.len())
             }
             "QC" | "QF" => {
                 let before = parse_quantity(f[1], f[2], f[3], f[4]);
